@@ -110,7 +110,10 @@ export function* generate({ tier, seed }) {
     const composed = compose([...pre.map((d, i) => DISTRACTORS[d](`p${i}`)), ...srcs.flatMap((s, i) => (i === 0 ? [s] : [DISTRACTORS[suf[0] ?? 'none'](`m${i}`), s])), ...suf.map((d, i) => DISTRACTORS[d](`q${i}`))]);
     const typed = names.includes('dcTyped');
     if (typed) opts = { ...opts, resolveType: true };
-    const variants = [{ vid: 'composed', src: composed, options: opts }];
+    // the import of defineComponent leads the composed module, so that prefix distractors (other imports from 'vue' among them) sit between it and the call
+    const DCI = 'import { defineComponent } from "vue";\n';
+    const composedSrc = typed ? DCI + composed.replace(DCI, '') : composed;
+    const variants = [{ vid: 'composed', src: composedSrc, options: opts }];
     names.forEach((s, i) => variants.push({ vid: `alone${i}`, src: alone[i], options: opts }));
     return {
       gid: `C10-${n++}`, syntax: typed ? 'tsx' : 'jsx', spec: { env: ENV, names, thunks: names.map((_, i) => `s${i}`) },
